@@ -4,6 +4,7 @@ package main
 // the callee from one state; forks are decided by the solver.
 
 import (
+	"time"
 	"fmt"
 	"go/constant"
 	"go/token"
@@ -127,6 +128,11 @@ type Exec struct {
 	merges        int
 	mapRanges     int
 	cur           ssa.Instruction
+	modelHits     int
+	totalSteps    int
+	started       time.Time
+	wallBudget    time.Duration
+	smallBuf      int
 	initFailed    []string
 	callStack     []string
 	asserts       int
@@ -184,11 +190,78 @@ func (ex *Exec) pos(in ssa.Instruction) string {
 
 // ---- solver helpers ----
 
+// wantTerms lists every solver variable a model of st must cover.
+func (ex *Exec) wantTerms(st *State) []*Term {
+	var want []*Term
+	for _, in := range st.inputs {
+		switch in.kind {
+		case "choice", "stubchoice":
+		case "bytes":
+			want = append(want, in.bs...)
+		default:
+			want = append(want, in.t)
+		}
+	}
+	want = append(want, st.aux...)
+	return want
+}
+
+// solve decides pc ∧ extra and, when satisfiable, returns a model.
+func (ex *Exec) solve(st *State, extra ...*Term) (SatResult, *Model) {
+	for _, e := range extra {
+		if e.IsConst() && e.c == 0 {
+			return Unsat, nil
+		}
+	}
+	want := ex.wantTerms(st)
+	conj := append(append([]*Term(nil), st.pc...), extra...)
+	r, vals := ex.sol.Check(conj, wantOrEmpty(want))
+	if r != Sat {
+		return r, nil
+	}
+	m := newModel()
+	for i, t := range want {
+		m.vals[t] = vals[i]
+		if t.op == OSelect {
+			m.arrs[t.a[0]] = true
+		}
+	}
+	return Sat, m
+}
+
+// holds evaluates c under the state's cached model: (value, known).
+func (ex *Exec) holds(st *State, c *Term) (bool, bool) {
+	if c.IsConst() {
+		return c.c != 0, true
+	}
+	if st.model == nil {
+		return false, false
+	}
+	v, ok := st.model.eval(ex.tt, c)
+	return v != 0, ok
+}
+
 func (ex *Exec) feasible(st *State, extra ...*Term) SatResult {
+	all := true
 	for _, e := range extra {
 		if e.IsConst() && e.c == 0 {
 			return Unsat
 		}
+		if v, ok := ex.holds(st, e); !ok || !v {
+			all = false
+		}
+	}
+	if all && st.model != nil {
+		ex.modelHits++
+		return Sat
+	}
+	if len(extra) == 0 {
+		// path condition alone: refresh the model
+		r, m := ex.solve(st)
+		if r == Sat {
+			st.model = m
+		}
+		return r
 	}
 	conj := append(append([]*Term(nil), st.pc...), extra...)
 	r, _ := ex.sol.Check(conj, nil)
@@ -208,43 +281,54 @@ func (ex *Exec) assume(st *State, c *Term) {
 		}
 	}
 	st.pc = append(st.pc, c)
-}
-
-func (ex *Exec) modelFor(st *State, extra ...*Term) (SatResult, []InputVal) {
-	var want []*Term
-	for _, in := range st.inputs {
-		switch in.kind {
-		case "choice":
-		case "bytes":
-			want = append(want, in.bs...)
-		default:
-			want = append(want, in.t)
+	if st.model != nil {
+		if v, ok := ex.holds(st, c); !ok || !v {
+			st.model = nil
 		}
 	}
-	conj := append(append([]*Term(nil), st.pc...), extra...)
-	r, vals := ex.sol.Check(conj, wantOrEmpty(want))
-	if r != Sat {
-		return r, nil
-	}
+}
+
+func (ex *Exec) inputVals(st *State, m *Model) []InputVal {
 	var res []InputVal
-	vi := 0
+	get := func(t *Term) uint64 {
+		v, _ := m.eval(ex.tt, t)
+		return v
+	}
 	for _, in := range st.inputs {
 		switch in.kind {
-		case "choice":
-			res = append(res, InputVal{Kind: "choice", V: uint64(in.n)})
+		case "choice", "stubchoice":
+			res = append(res, InputVal{Kind: in.kind, V: uint64(in.n)})
 		case "bytes":
 			b := make([]byte, len(in.bs))
 			for i := range in.bs {
-				b[i] = byte(vals[vi])
-				vi++
+				b[i] = byte(get(in.bs[i]))
 			}
 			res = append(res, InputVal{Kind: "bytes", B: fmt.Sprintf("%x", b), V: uint64(len(b))})
 		default:
-			res = append(res, InputVal{Kind: in.kind, V: vals[vi]})
-			vi++
+			res = append(res, InputVal{Kind: in.kind, V: get(in.t)})
 		}
 	}
-	return Sat, res
+	return res
+}
+
+func (ex *Exec) modelFor(st *State, extra ...*Term) (SatResult, []InputVal) {
+	all := st.model != nil
+	for _, e := range extra {
+		if v, ok := ex.holds(st, e); !ok || !v {
+			all = false
+		}
+	}
+	if all {
+		return Sat, ex.inputVals(st, st.model)
+	}
+	r, m := ex.solve(st, extra...)
+	if r != Sat {
+		return r, nil
+	}
+	if len(extra) == 0 {
+		st.model = m
+	}
+	return Sat, ex.inputVals(st, m)
 }
 
 func wantOrEmpty(w []*Term) []*Term {
@@ -258,6 +342,13 @@ func wantOrEmpty(w []*Term) []*Term {
 // failure a violation is recorded; the path continues under ok. Returns false
 // if the path cannot continue.
 func (ex *Exec) oblige(st *State, ok *Term, kind, site, fn, msg string) bool {
+	return ex.obligeP(st, ok, nil, kind, site, fn, msg)
+}
+
+// obligeP: as oblige; prefer (may be nil) is a stronger violation condition
+// whose models are robust against runtime details (e.g. spare slice capacity);
+// it is tried first when a counterexample is extracted.
+func (ex *Exec) obligeP(st *State, ok, prefer *Term, kind, site, fn, msg string) bool {
 	ex.obligations++
 	if ok.IsConst() && ok.c != 0 {
 		ex.obTrivial++
@@ -270,7 +361,12 @@ func (ex *Exec) oblige(st *State, ok *Term, kind, site, fn, msg string) bool {
 		}
 	}
 	nok := ex.tt.BNot(ok)
-	r := ex.feasible(st, nok)
+	var r SatResult
+	if v, known := ex.holds(st, nok); known && v {
+		r = Sat // the cached model already violates it
+	} else {
+		r = ex.feasible(st, nok)
+	}
 	switch r {
 	case Unsat:
 		return true
@@ -279,14 +375,18 @@ func (ex *Exec) oblige(st *State, ok *Term, kind, site, fn, msg string) bool {
 		ex.assume(st, ok)
 		return !st.dead
 	}
-	ex.recordViolation(st, kind, site, fn, msg, nok)
+	if prefer != nil && ex.feasible(st, nok, prefer) == Sat {
+		ex.recordViolation(st, kind, site, fn, msg, nok, prefer)
+	} else {
+		ex.recordViolation(st, kind, site, fn, msg, nok)
+	}
 	if ok.IsConst() {
 		return false
 	}
-	if ex.feasible(st, ok) != Sat {
+	ex.assume(st, ok)
+	if ex.feasible(st) != Sat {
 		return false
 	}
-	ex.assume(st, ok)
 	return true
 }
 
@@ -331,14 +431,58 @@ func (ex *Exec) split(st *State, cond *Term) (t, f *State) {
 			return nil, st
 		}
 	}
-	rt := ex.feasible(st, cond)
+	if st.model == nil {
+		if r, m := ex.solve(st); r == Sat {
+			st.model = m
+		} else if r == Unsat {
+			st.dead = true
+			return nil, nil
+		}
+	}
+	if v, known := ex.holds(st, cond); known {
+		// the cached model takes one side; ask the solver about the other
+		other := nc
+		if !v {
+			other = cond
+		}
+		ex.modelHits++
+		r, m := ex.solve(st, other)
+		if r == Unknown {
+			ex.inconclusive = append(ex.inconclusive, "branch feasibility unknown")
+		}
+		if r != Sat {
+			// only the model's side
+			if v {
+				ex.assume(st, cond)
+				return st, nil
+			}
+			ex.assume(st, nc)
+			return nil, st
+		}
+		ex.forks++
+		o := st.clone()
+		if v {
+			ex.assume(st, cond)
+			ex.assume(o, nc)
+			o.model = m
+			return st, o
+		}
+		ex.assume(st, nc)
+		ex.assume(o, cond)
+		o.model = m
+		return o, st
+	}
+	rt, mt := ex.solve(st, cond)
 	if rt == Unsat {
 		ex.assume(st, nc)
 		return nil, st
 	}
-	rf := ex.feasible(st, nc)
+	rf, mf := ex.solve(st, nc)
 	if rf == Unsat {
 		ex.assume(st, cond)
+		if mt != nil {
+			st.model = mt
+		}
 		return st, nil
 	}
 	if rt == Unknown || rf == Unknown {
@@ -348,6 +492,7 @@ func (ex *Exec) split(st *State, cond *Term) (t, f *State) {
 	f = st.clone()
 	ex.assume(st, cond)
 	ex.assume(f, nc)
+	st.model, f.model = mt, mf
 	return st, f
 }
 
@@ -674,6 +819,10 @@ func (ex *Exec) runCtx(c *ctx, work *[]*ctx, outs *[]Outcome) {
 			return
 		}
 		c.st.steps++
+		ex.totalSteps++
+		if ex.totalSteps&0x3fff == 0 && ex.wallBudget > 0 && time.Since(ex.started) > ex.wallBudget {
+			unsup("wall-clock budget of %v exhausted (paths=%d, forks=%d) — bound too large for this tier", ex.wallBudget, ex.paths, ex.forks)
+		}
 		if c.st.steps > ex.maxSteps {
 			ex.boundExceeded = append(ex.boundExceeded, fmt.Sprintf("step budget %d exhausted in %s", ex.maxSteps, c.fn))
 			r, m := ex.modelFor(c.st)
